@@ -447,6 +447,13 @@ class NetworkGraph(AbstractBaseIR):
             buffer_eqs.append(f"{buf_out} = {var}_d{n}{buffer_id}")
 
         # Attach buffer equations and variables to the source operator
+        # (generated names must not overwrite variables the operator already declares, see `_add_edge_buffer`)
+        conflicts = set(op_info.get('variables', {}).keys()) & set(var_dict.keys())
+        if conflicts:
+            raise PyRatesException(
+                f"Delay variable name collision in operator '{op}' on node '{node}': {conflicts}. "
+                f"Please rename these operator variables or use a unique buffer_id."
+            )
         op_info['equations'] += buffer_eqs
         op_info['variables'].update(var_dict)
         op_info['output'] = buf_out
